@@ -275,6 +275,17 @@ def go_test(pkgs, pkgdir, run, env=None, timeout=1200, race=False, tmp=None, cov
         if race and "WARNING: DATA RACE" in o and "[build failed]" not in o:
             raise DataRace(o)
         if re.search(r"^(panic:|fatal error:)", o, re.M) and "[build failed]" not in o and "[setup failed]" not in o:
+            # whose crash is it? the first frame outside the Go distribution, below the panic, names the file
+            m = re.search(r"^(?:panic:|fatal error:).*?\n((?:.*\n)*)", o, re.M)
+            origin = None
+            for fm in re.finditer(r"^\t(/\S+\.go):\d+", m.group(1) if m else "", re.M):
+                f = fm.group(1)
+                if f.startswith(os.path.realpath(REPO) + "/") or f.startswith(REPO + "/") or "/covtree/" in f:
+                    origin = f          # the tree under test (production files and the overlaid harness files live there)
+                    break
+            if origin and re.search(r"/(zz_)?vf_[^/]*\.go$|/gen_[^/]*\.go$", origin):
+                sys.stderr.write(o[-3000:])
+                raise Infra("the harness crashed (not the code under test) at %s in %s -run %s" % (origin, pkgdir, run))
             raise ProductCrash(o)
         sys.stderr.write(o[-3000:])
         raise Infra("go test failed (rc=%d) for %s -run %s" % (p.returncode, pkgdir, run))
